@@ -738,6 +738,14 @@ impl<'a> Tr<'a> {
     }
 
     fn body(&self, e: &Expr, cur: &str, self_ty: Option<&str>) -> String {
+        // `{ expr }` with a single trailing expression is the expression
+        if let Expr::Block(b) = e {
+            if b.block.stmts.len() == 1 {
+                if let syn::Stmt::Expr(x, None) = &b.block.stmts[0] {
+                    return self.body(x, cur, self_ty);
+                }
+            }
+        }
         let strip_ok = |e: &Expr| -> Option<Expr> {
             if let Expr::Call(c) = e {
                 if let Expr::Path(p) = &*c.func {
